@@ -39,6 +39,11 @@ type c10Case struct {
 	Unavail   bool       `json:"network_unavailable"`
 	Excluded  bool       `json:"exclude_label"`
 	IgnoreExc bool       `json:"ignore_exclude_lb"`
+	// CondStatus: how a NetworkUnavailable condition that does not say "True" is written: "" = status False,
+	// "Unknown" = status Unknown, "absent" = no such condition (all three mean: not unavailable).
+	CondStatus string `json:"network_unavailable_condition_when_not_true,omitempty"`
+	// LabelValue: the value of the exclude label when Excluded ("" by default; the label excludes whatever its value).
+	LabelValue string `json:"exclude_label_value,omitempty"`
 	AdvSel    int        `json:"adv_selects"` // 0 me, 1 other only, 2 nobody (no advertisement), 3 two advs: other and me
 	Local     bool       `json:"local_policy"`
 }
@@ -104,8 +109,16 @@ func (c *c10Case) build() (*config.Pool, *v1.Service, []discovery.EndpointSlice,
 			st = v1.ConditionTrue
 		}
 		n.Status.Conditions = []v1.NodeCondition{{Type: v1.NodeNetworkUnavailable, Status: st}}
+		if !c.Unavail {
+			switch c.CondStatus {
+			case "Unknown":
+				n.Status.Conditions[0].Status = v1.ConditionUnknown
+			case "absent":
+				n.Status.Conditions = []v1.NodeCondition{{Type: v1.NodeReady, Status: v1.ConditionUnknown}}
+			}
+		}
 		if c.Excluded {
-			n.Labels[v1.LabelNodeExcludeBalancers] = ""
+			n.Labels[v1.LabelNodeExcludeBalancers] = c.LabelValue
 		}
 		nodes[spkMe] = n
 	}
@@ -328,6 +341,31 @@ func TestVerif_C10(t *testing.T) {
 	}
 	// 0, 1 and 2 entries with the full node/advertisement product; 3 entries with the default node state
 	if verifrt.Mine(0) {
+		// spellings of the node state: a NetworkUnavailable condition that is Unknown or absent is not "unavailable";
+		// the exclude label excludes whatever its value
+		for _, e := range entries {
+			if e.Term != 0 || e.Addrs != 1 {
+				continue
+			}
+			for _, local := range []bool{false, true} {
+				for _, ign := range []bool{false, true} {
+					for _, cs := range []string{"Unknown", "absent"} {
+						for _, ex := range []bool{false, true} {
+							c := &c10Case{Entries: []c10Entry{e}, NodeKnown: true, CondStatus: cs, Excluded: ex, IgnoreExc: ign, Local: local}
+							f.check(res, c)
+							distinct++
+						}
+					}
+					for _, lv := range []string{"false", "true", "0", "no"} {
+						for _, un := range []bool{false, true} {
+							c := &c10Case{Entries: []c10Entry{e}, NodeKnown: true, Unavail: un, Excluded: true, LabelValue: lv, IgnoreExc: ign, Local: local}
+							f.check(res, c)
+							distinct++
+						}
+					}
+				}
+			}
+		}
 		runLayout(nil, true)
 		for _, e := range entries {
 			runLayout([]c10Entry{e}, true)
